@@ -875,6 +875,10 @@ def _value_tomof(
     return mof_str, line_pos
 
 
+# DSP0201 spelling of the special real values, for str() of Python floats
+_REAL_SPECIAL_KEYVALUES = {'inf': 'INF', '-inf': '-INF', 'nan': 'NaN'}
+
+
 def _cim_keybinding(key, value):
     """
     Return a keybinding value, from dict item input (key+value).
@@ -1707,7 +1711,7 @@ class CIMInstanceName(_CIMComparisonMixin, SlottedPickleMixin):
                 # Numeric CIM data types derive from Python number types.
                 value_type = 'numeric'
                 cim_type = value.cimtype
-                value = str(value)
+                value = _REAL_SPECIAL_KEYVALUES.get(str(value), str(value))
             elif isinstance(value, number_types):
                 value_type = 'numeric'
 
@@ -1717,7 +1721,7 @@ class CIMInstanceName(_CIMComparisonMixin, SlottedPickleMixin):
                 # to set the TYPE attribute that was introduced in DTD 2.4.
                 cim_type = None
 
-                value = str(value)
+                value = _REAL_SPECIAL_KEYVALUES.get(str(value), str(value))
             else:
                 # Double check the type of the keybindings, because they can be
                 # set individually.
